@@ -147,6 +147,12 @@ pub fn equality<S: Source>(s: &mut S, da: &[usize], db: &[usize]) {
     chk!((a == b) == expect, "[c16:eq] == disagrees with equality of dimensions and values");
     chk!((b == a) == expect, "[c16:eq-sym] == is not symmetric");
     chk!(a == a.clone(), "[c16:eq-clone] an array differs from its clone");
+    // storage-sharing views: equal iff the dimensions are equal too
+    let flat = a.reshape(vec![n]);
+    chk!((flat == a) == (da.len() == 1), "[c16:eq-view] a reshaped view with different dimensions compares equal to its source");
+    let same_shape = a.reshape(da.to_vec());
+    chk!(same_shape == a, "[c16:eq-view-same] a view with the same dimensions differs from its source");
+    forget((flat, same_shape));
     witness();
     forget((a, b, r));
 }
